@@ -55,7 +55,7 @@ def run(ctx):
     def make_rows(groups):
         rows, nxt = [], 1
         for g in groups:
-            for _ in range(1 + (hash(g) + len(groups)) % 2):
+            for _ in range(1 + (sum(map(ord, g)) + len(groups)) % 4):      # 1..4 entries per contig: with single-entry chunks a contig spans up to 4 chunks
                 rows.append((g, 10 * nxt, 10 * nxt + 3))   # unique start = id; entries never touch
                 nxt += 1
         return rows
@@ -113,8 +113,10 @@ def run(ctx):
         sizes_with_ignored[ignored] = SIZE
         genome = bnp.Genome.from_dict(sizes_with_ignored, filter_function=ignore_underscores)
         ignored_names = {ignored}
+        genome0 = None
         if case.get("extra_ignored"):
             # a second way of ignoring contigs: names added afterwards; the contigs ignored by the filter must stay ignored
+            genome0 = genome
             genome = genome.with_ignored_added(["chrM"])
             ignored_names.add("chrM")
         rows = make_rows(groups)
@@ -185,6 +187,10 @@ def run(ctx):
             out = attempt(fn)
             judge(cname, case, out, out[1] if out[0] == "ok" else None, included, valid, why)
 
+        if genome0 is not None and "chrM" in groups:
+            # the genome the tolerant one was derived from is still strict: chrM is unknown to it, so it must raise (or conserve every entry)
+            out = attempt(lambda: rows_of(genome0.get_intervals(mk()).compute().get_data()))
+            judge("original-genome-after-with_ignored_added.compute", case, out, out[1] if out[0] == "ok" else None, [r for r in rows if r[0] != ignored], False, "unknown-contig:derived-genome-ignores-it")
         # ---- MultiStream (no ignored names there: every name must be in the contig order) ----
         ms_rows = [r for r in rows if r[0] not in ignored_names]
         ms_unknown = [g for g in groups if g not in names and g not in ignored_names]
@@ -215,6 +221,27 @@ def run(ctx):
                     if bad:
                         out += [("MISATTRIBUTED:" + str(n), -1, -1)]
                 return out
+            def m_dict_source():
+                # dict-like per-contig source (documented use); contigs without entries have no key
+                t = table(ms_rows)
+                cn = chrom_names(t.chromosome)
+                d = {}
+                for g in ms_groups:
+                    if g in names:          # keys outside the contig list are simply never looked up: not part of this history
+                        d[g] = t[np.array([c == g for c in cn], dtype=bool)]
+                ms = MultiStream(sizes, a=d)
+                out = []
+                for n, chunk in zip(ms.sequence_names, ms.a):
+                    out += [(str(n), s_, e_) for (_, s_, e_) in rows_of(chunk)]
+                    if any(c != str(n) for c in chrom_names(chunk.chromosome)):
+                        out += [("MISATTRIBUTED:" + str(n), -1, -1)]
+                return out
+            out = attempt(m_dict_source)
+            if out[0] == "raised":
+                ctx.judged("MultiStream(dict-source)", None)      # a dict that does not cover every contig (or names an unknown one) may be refused
+                ctx.count("dict_source_raised")
+            else:
+                judge("MultiStream(dict-source)", dict(case, groups=ms_groups), out, out[1], [r for r in ms_rows if r[0] in names], set(names) <= set(ms_groups), "dict-source-does-not-cover-the-contig-list")
             exp_ms = [r for r in ms_rows]
             for cname, fn in (("MultiStream.zip(names,data)", m_names_first), ("MultiStream.zip(data,lengths)", m_data_first)):
                 out = attempt(fn)
